@@ -251,6 +251,17 @@ func vf14GenCase(rt *rapid.T, idents []vf14Ident) vf14Case {
 	c.Ident = idents[rapid.IntRange(0, len(idents)-1).Draw(rt, "ident")]
 	c.Seed = rapid.Uint64().Draw(rt, "seed")
 	c.Version = []uint16{VersionTLS12, VersionTLS13}[rapid.IntRange(0, 1).Draw(rt, "version")]
+	if rapid.IntRange(0, 4).Draw(rt, "echBias") == 0 {
+		// only 6 of the 39 identities can offer ECH: give that part of the product a fixed share
+		var capable []vf14Ident
+		for _, id := range idents {
+			if id.ECH {
+				capable = append(capable, id)
+			}
+		}
+		c.Ident = capable[rapid.IntRange(0, len(capable)-1).Draw(rt, "echIdent")]
+		c.Version = VersionTLS13
+	}
 	n := rapid.IntRange(0, 3).Draw(rt, "nameIdx")
 	server := fmt.Sprintf("svc%d.c14.test", n)
 	alt := fmt.Sprintf("alt%d.c14.test", n)
